@@ -39,15 +39,21 @@ type sunRes struct {
 // of sunlight.NewRFC6962Verifier, and the tuple a sunlight client reads from
 // what was opened.
 func openSun(msg []byte, name string, pub crypto.PublicKey) (r sunRes) {
+	v, err := sunlight.NewRFC6962Verifier(name, pub)
+	if err != nil {
+		return sunRes{Err: "verifier: " + err.Error()}
+	}
+	return openWith(v, msg)
+}
+
+// openWith opens msg with the verifier value v (which may have verified other
+// notes before: whatever state it carries is part of the code under test).
+func openWith(v note.Verifier, msg []byte) (r sunRes) {
 	defer func() {
 		if p := recover(); p != nil {
 			r = sunRes{Panic: fmt.Sprint(p)}
 		}
 	}()
-	v, err := sunlight.NewRFC6962Verifier(name, pub)
-	if err != nil {
-		return sunRes{Err: "verifier: " + err.Error()}
-	}
 	n, err := note.Open(msg, note.VerifierList(v))
 	if err != nil {
 		return sunRes{Err: err.Error()}
@@ -79,8 +85,81 @@ func cosigOK(msg []byte, name string, keys *Keys) bool {
 	return err == nil && len(n.Sigs) == 1
 }
 
-func verdicts(m map[string]any, msg []byte, name string, pub crypto.PublicKey) {
+// Run is the decision of one verifier value on one note. The verifier is
+//
+//	fresh   constructed for this one check
+//	warm    constructed for this check, and it has just verified the genuine
+//	        checkpoint the note was derived from (primed says whether that
+//	        opened); afterwards the genuine checkpoint is opened once more
+//	        (after_ok)
+//	shared  one long-lived value per (name, key) that is handed every note of
+//	        the run in turn, genuine and deviated, as a monitor's verifier is
+type Run struct {
+	Verifier     string `json:"verifier"`
+	OK           bool   `json:"sun_ok"`
+	Tuple        Tuple  `json:"sun_tuple"`
+	Err          string `json:"sun_err"`
+	Panic        string `json:"sun_panic"`
+	Primed       bool   `json:"primed"`
+	AfterChecked bool   `json:"after_checked"`
+	AfterOK      bool   `json:"after_ok"`
+}
+
+func runOf(mode string, s sunRes) Run {
+	return Run{Verifier: mode, OK: s.OK, Tuple: s.Tuple, Err: s.Err, Panic: s.Panic}
+}
+
+// sharedVerifiers holds the long-lived verifier values.
+type sharedVerifiers struct {
+	v      map[string]note.Verifier
+	primed map[string]bool // verifier key + genuine note -> it opened
+}
+
+func newShared() *sharedVerifiers {
+	return &sharedVerifiers{v: map[string]note.Verifier{}, primed: map[string]bool{}}
+}
+
+func (sh *sharedVerifiers) run(msg, genuine []byte, name string, pub crypto.PublicKey) Run {
+	kh := KeyHash(name, pub)
+	key := name + "|" + hex.EncodeToString(kh[:])
+	v, ok := sh.v[key]
+	if !ok {
+		var err error
+		v, err = sunlight.NewRFC6962Verifier(name, pub)
+		if err != nil {
+			return runOf("shared", sunRes{Err: "verifier: " + err.Error()})
+		}
+		sh.v[key] = v
+	}
+	pk := key + "|" + string(genuine)
+	if _, seen := sh.primed[pk]; !seen {
+		sh.primed[pk] = openWith(v, genuine).OK
+	}
+	r := runOf("shared", openWith(v, msg))
+	r.Primed = sh.primed[pk]
+	return r
+}
+
+// verdicts records what the verifiers make of msg. genuine, if not nil, is the
+// honest checkpoint msg was derived from: then the note is also presented to
+// verifier values with a history (see Run).
+func verdicts(m map[string]any, msg []byte, name string, pub crypto.PublicKey, genuine []byte, sh *sharedVerifiers) {
 	s := openSun(msg, name, pub)
+	runs := []Run{runOf("fresh", s)}
+	if genuine != nil {
+		if v, err := sunlight.NewRFC6962Verifier(name, pub); err == nil {
+			p := openWith(v, genuine)
+			r := runOf("warm", openWith(v, msg))
+			r.Primed = p.OK
+			r.AfterChecked = true
+			r.AfterOK = openWith(v, genuine).OK
+			runs = append(runs, r)
+		}
+		if sh != nil {
+			runs = append(runs, sh.run(msg, genuine, name, pub))
+		}
+	}
+	m["runs"] = runs
 	m["sun_ok"] = s.OK
 	m["sun_tuple"] = s.Tuple
 	m["sun_err"] = s.Err
@@ -210,7 +289,7 @@ func TestNote(t *testing.T) {
 		m := map[string]any{"k": "signed", "id": next(), "where": s.Where, "name": name,
 			"clock_ts": strconv.FormatInt(s.Clock, 10), "size": strconv.FormatInt(s.Size, 10),
 			"published": published[string(s.Bytes)], "cosig_ok": cosigOK(s.Bytes, name, keys)}
-		verdicts(m, s.Bytes, name, pub)
+		verdicts(m, s.Bytes, name, pub, nil, nil)
 		delete(m, "msg")
 		delete(m, "msg_b64")
 		m["msg_b64"] = base64.StdEncoding.EncodeToString(s.Bytes)
@@ -224,10 +303,52 @@ func TestNote(t *testing.T) {
 		if !found {
 			m := map[string]any{"k": "signed", "id": next(), "where": "published-only", "name": name,
 				"clock_ts": "?", "size": "?", "published": true, "cosig_ok": cosigOK(p, name, keys)}
-			verdicts(m, p, name, pub)
+			verdicts(m, p, name, pub, nil, nil)
 			out.Write(m)
 		}
 	}
+
+	// ---- 1b. origins around the limits of the signers (the ML-DSA cosigner takes
+	// names of up to 255 bytes): either no log comes to exist, or every
+	// checkpoint it signs is judged like the ones above
+	origins := map[string]string{}
+	for _, olen := range []int{200, 255, 256, 300} {
+		prefix := "example.com/verif-c11/"
+		oname := prefix + strings.Repeat("x", olen-len(prefix))
+		d := NewDriver(oname, keys, dir, fmt.Sprintf("O%d", olen), 1750000000000+int64(olen))
+		stage, err := "create", d.Create(ctx)
+		if err == nil {
+			stage, err = "load", d.Load(ctx)
+		}
+		if err == nil {
+			defer d.Close()
+			stage, err = "round 1", d.Round(ctx, d.Clock+1000)
+		}
+		if err == nil {
+			d.Submit(ctx, SynthEntry(fmt.Sprintf("o%d", olen), false))
+			stage, err = "round 2", d.Round(ctx, d.Clock+1000)
+		}
+		if err != nil {
+			// nothing more is signed for this origin: not a verdict, not a failure of the binding
+			out.Write(map[string]any{"k": "nolog", "id": next(), "origin_len": olen, "stage": stage, "err": err.Error(),
+				"signed_before": len(d.Store.Signed)})
+			origins[strconv.Itoa(olen)] = fmt.Sprintf("stopped at %s with %d checkpoint(s) signed", stage, len(d.Store.Signed))
+		} else {
+			origins[strconv.Itoa(olen)] = fmt.Sprintf("%d checkpoints signed", len(d.Store.Signed))
+		}
+		for _, s := range d.Store.Signed {
+			m := map[string]any{"k": "signed", "id": next(), "where": s.Where, "name": oname, "origin_len": olen,
+				"clock_ts": strconv.FormatInt(s.Clock, 10), "size": strconv.FormatInt(s.Size, 10),
+				"published": true, "cosig_ok": cosigOK(s.Bytes, oname, keys)}
+			verdicts(m, s.Bytes, oname, pub, nil, nil)
+			delete(m, "msg")
+			m["msg_b64"] = base64.StdEncoding.EncodeToString(s.Bytes)
+			out.Write(m)
+		}
+	}
+	ob, _ := json.Marshal(origins)
+	t.Logf("ORIGINS %s", ob)
+	shared := newShared()
 
 	// ---- 2. honest checkpoints to deviate from
 	bases := map[string][]*Base{}
@@ -335,7 +456,7 @@ func TestNote(t *testing.T) {
 			if len(c.Devs) == 0 {
 				m["devs"] = []any{}
 			}
-			verdicts(m, msg, b.Name, b.Pub)
+			verdicts(m, msg, b.Name, b.Pub, b.Msg, shared)
 			out.Write(m)
 			ncases++
 		}
@@ -355,7 +476,7 @@ func TestNote(t *testing.T) {
 			raw := thorough || src == "log"
 			b.ByteMutations(values, raw, func(region string, pos, val int, msg []byte) {
 				m := map[string]any{"k": "mut", "id": next(), "src": src, "region": region, "pos": pos, "val": val}
-				verdicts(m, msg, b.Name, b.Pub)
+				verdicts(m, msg, b.Name, b.Pub, b.Msg, shared)
 				out.Write(m)
 			})
 			// the wrong verifier: another name, another key
@@ -365,7 +486,7 @@ func TestNote(t *testing.T) {
 				pub  crypto.PublicKey
 			}{{"other-name", "example.com/other", b.Pub}, {"other-key", b.Name, b.OtherKey.Public()}} {
 				m := map[string]any{"k": "mut", "id": next(), "src": src, "region": alt.what, "pos": 0, "val": 0}
-				verdicts(m, b.Msg, alt.name, alt.pub)
+				verdicts(m, b.Msg, alt.name, alt.pub, b.Msg, shared)
 				out.Write(m)
 			}
 		}
